@@ -583,6 +583,12 @@ static Setup setup(void* lib, const Json& c) {
       }
     }
   }
+  // other scalar internal state variables given by name (e.g. the porosity)
+  if (has(c, "isv0"))
+    for (const auto& kv : c["isv0"].o) {
+      const int o = su.b.offset(kv.first);
+      if (o >= 0) su.isv0[o] = ratd(kv.second);
+    }
   su.sig0 = hookeTfel(su.law, eel0, h);
   su.esv0.assign(16, 0.);
   su.esv1.assign(16, 0.);
@@ -767,6 +773,338 @@ static void integrateCase(void* lib, const Json& c, Json& r) {
   }
 }
 
+// ---- mode tangent (C42) ---------------------------------------------------------------------------------------------
+// elastic stiffness in TFEL storage restricted to the hypothesis (altered under plane stress: axial stress eliminated)
+static std::vector<ld> stiffness(const Law& l, const Hyp& h) {
+  const int ns = h.ns;
+  std::vector<ld> D(ns * ns, 0);
+  for (int i = 0; i < ns; ++i)
+    for (int j = 0; j < ns; ++j) D[i * ns + j] = (i < 3 && j < 3 ? l.lambda : 0) + (i == j ? 2 * l.mu : 0);
+  if (h.pstress) {
+    const int ax = h.axial;
+    const ld dzz = D[ax * ns + ax];
+    std::vector<ld> A = D;
+    for (int i = 0; i < ns; ++i)
+      for (int j = 0; j < ns; ++j) A[i * ns + j] = (i == ax || j == ax) ? 0 : D[i * ns + j] - D[i * ns + ax] * D[ax * ns + j] / dzz;
+    D = A;
+  }
+  return D;
+}
+static void tangentCase(void* lib, const Json& c, Json& r) {
+  const Setup su = setup(lib, c);
+  const auto& h = su.b.h;
+  const int ns = h.ns;
+  const ld young = su.law.young;
+  const double kt = static_cast<double>(c["ktype"].asInt());
+  const auto base = call(su.b, su.mp, su.eto0, su.deto, su.sig0, su.isv0, su.esv0, su.esv1, su.dt, kt);
+  r.set("ret", Json(base.ret)).set("threw", Json(base.threw));
+  if (base.ret < 0 || base.threw) return;
+  const State s1 = viewState(su, base.isv);
+  bool active = false;
+  for (size_t i = 0; i < s1.p.size(); ++i) active = active || s1.p[i] > su.s0.p[i];
+  r.set("active", Json(active));
+  auto K = [&](int i, int j) { return static_cast<ld>(base.K[i * ns + j]); };
+  bool finite = true;
+  for (int i = 0; i < ns * ns; ++i) finite = finite && std::isfinite(base.K[i]);
+  r.set("k_finite", Json(finite));
+  const auto D = stiffness(su.law, h);
+  ld de = 0, dsym = 0;
+  for (int i = 0; i < ns; ++i)
+    for (int j = 0; j < ns; ++j) {
+      de = std::max(de, std::fabs(K(i, j) - D[i * ns + j]));
+      dsym = std::max(dsym, std::fabs(K(i, j) - K(j, i)));
+    }
+  r.set("k_elastic", Json(e10(de / young))).set("k_sym", Json(e10(dsym / young)));
+  // rounded entries (exact comparison with the integer stiffness of the dyadic constants)
+  {
+    std::vector<double> kv(base.K.begin(), base.K.begin() + ns * ns);
+    r.set("kint", ints(kv, 1., ns * ns));
+    ld w = 0;
+    for (auto x : kv) w = std::max(w, std::fabs(static_cast<ld>(x) - std::nearbyint(x)));
+    r.set("k_tight", Json(e10(w / young)));
+  }
+  if (has(c, "kexpect")) {
+    ld w = 0;
+    for (int i = 0; i < ns * ns; ++i) w = std::max(w, std::fabs(static_cast<ld>(base.K[i]) - rat(c["kexpect"][i])));
+    r.set("x_k", Json(e10(w / young)));
+  }
+  if (!(has(c, "fd") && c["fd"].asInt() != 0)) return;
+  // finite differences of the integration itself (no operator requested), several perturbations; the best one counts
+  auto sigma = [&](const int j, const double hh, std::vector<double>& out) {
+    std::vector<double> de2 = su.deto;
+    de2[j] += hh;
+    const auto q = call(su.b, su.mp, su.eto0, de2, su.sig0, su.isv0, su.esv0, su.esv1, su.dt, 0.);
+    out = q.sig;
+    return q.ret >= 0 && !q.threw;
+  };
+  long long best_c = 99, best_o = 99, best_f = 99, best_b = 99;
+  bool fdok = false;  // some perturbation size for which every perturbed integration succeeded
+  Json perh = Json::array();
+  for (const auto& hj : c["fdh"].a) {
+    const double hh = ratd(hj);
+    ld ec = 0, eo = 0, ef = 0, eb = 0;
+    bool valid = true;
+    for (int j = 0; j < ns && valid; ++j) {
+      if (h.pstress && j == h.axial) continue;  // not an input under plane stress
+      std::vector<double> sp, sm;
+      if (!sigma(j, hh, sp) || !sigma(j, -hh, sm)) {
+        valid = false;
+        break;
+      }
+      ld cj = 0, fj = 0, bj = 0;
+      for (int i = 0; i < ns; ++i) {
+        const ld dc = (static_cast<ld>(sp[i]) - sm[i]) / (2 * static_cast<ld>(hh));
+        const ld df = (static_cast<ld>(sp[i]) - base.sig[i]) / static_cast<ld>(hh);
+        const ld db = (static_cast<ld>(base.sig[i]) - sm[i]) / static_cast<ld>(hh);
+        cj = std::max(cj, std::fabs(K(i, j) - dc));
+        fj = std::max(fj, std::fabs(K(i, j) - df));
+        bj = std::max(bj, std::fabs(K(i, j) - db));
+      }
+      ec = std::max(ec, cj);
+      ef = std::max(ef, fj);
+      eb = std::max(eb, bj);
+      eo = std::max(eo, std::min(fj, bj));
+    }
+    if (!valid) {
+      perh.push(Json(99));
+      continue;
+    }
+    fdok = true;
+    best_c = std::min(best_c, e10(ec / young));
+    best_o = std::min(best_o, e10(eo / young));
+    best_f = std::min(best_f, e10(ef / young));
+    best_b = std::min(best_b, e10(eb / young));
+    perh.push(Json(e10(ec / young)));
+  }
+  r.set("fd_ok", Json(fdok)).set("fd_central", Json(best_c)).set("fd_onesided", Json(best_o)).set("fd_forward", Json(best_f)).set("fd_backward", Json(best_b));
+  r.set("fd_per_h", perh);
+}
+
+// ---- mode jacobian (C43) --------------------------------------------------------------------------------------------
+// A behaviour generated with `@CompareToNumericalJacobian true` and a zero comparison criterion prints, at every
+// Newton iteration, every block of the jacobian whose analytical and numerical values differ:
+//     <norm of the difference> <criterion>
+//     df<X>_dd<Y> :            analytical block
+//     ndf<X>_dd<Y> :           numerical block (centered finite differences, perturbation numerical_jacobian_epsilon)
+//     df<X>_dd<Y> - ndf<X>_dd<Y> :
+// The harness drives a loading path, captures the standard output, parses the reports and abstracts, per block, the
+// worst mismatch  m = max |A - N| / max(1, max |A|, max |N|)  into a class.
+struct BlockStat {
+  ld worst = 0;
+  long long reports = 0;
+  ld scale = 0;
+  std::string sampleA, sampleN;
+};
+static std::vector<double> numbersOf(const std::string& t) {
+  std::string u = t;
+  for (auto& ch : u)
+    if (ch == '[' || ch == ']' || ch == ',' || ch == '\n') ch = ' ';
+  std::vector<double> v;
+  const char* p = u.c_str();
+  char* e = nullptr;
+  for (;;) {
+    while (*p == ' ') ++p;
+    if (!*p) break;
+    const double x = strtod(p, &e);
+    if (e == p) {  // not a number (nan, inf are parsed by strtod; anything else is skipped)
+      ++p;
+      continue;
+    }
+    v.push_back(x);
+    p = e;
+  }
+  return v;
+}
+struct Report {
+  std::string name;
+  std::vector<double> a, n;
+  std::string ta, tn;
+};
+// the reports of one Newton iteration (the code generated in debug mode prints "...::integrate() : iteration k : error"
+// before the comparison of that iteration)
+static std::vector<std::vector<Report>> parseReports(const std::string& out, long long& unparsed) {
+  std::vector<std::string> lines;
+  {
+    std::istringstream is(out);
+    std::string l;
+    while (std::getline(is, l)) lines.push_back(l);
+  }
+  auto header = [](const std::string& l, std::string& name, int& kind) {
+    // kind 0: analytical "dfX_ddY... :", 1: numerical "ndfX_ddY... :", 2: difference
+    if (l.size() < 4 || l.substr(l.size() - 2) != " :") return false;
+    const std::string h = l.substr(0, l.size() - 2);
+    if (h.find(" - ") != std::string::npos) {
+      kind = 2;
+      name = h.substr(0, h.find(" - "));
+      return h.compare(0, 2, "df") == 0;
+    }
+    if (h.compare(0, 3, "ndf") == 0) {
+      kind = 1;
+      name = h.substr(1);
+      return true;
+    }
+    if (h.compare(0, 2, "df") == 0) {
+      kind = 0;
+      name = h;
+      return true;
+    }
+    return false;
+  };
+  auto marker = [](const std::string& l) { return l.find("::integrate() : ") != std::string::npos; };
+  std::vector<std::vector<Report>> groups(1);
+  size_t i = 0;
+  while (i < lines.size()) {
+    if (marker(lines[i])) {
+      if (!groups.back().empty()) groups.emplace_back();
+      ++i;
+      continue;
+    }
+    std::string name;
+    int kind = -1;
+    if (!header(lines[i], name, kind) || kind != 0) {
+      ++i;
+      continue;
+    }
+    auto body = [&](size_t& k) {
+      std::string t, n2;
+      int k2;
+      while (k < lines.size() && !lines[k].empty() && !header(lines[k], n2, k2) && !marker(lines[k])) t += lines[k++] + "\n";
+      return t;
+    };
+    size_t k = i + 1;
+    Report rp;
+    rp.name = name;
+    rp.ta = body(k);
+    std::string n2;
+    int k2 = -1;
+    if (k >= lines.size() || !header(lines[k], n2, k2) || k2 != 1 || n2 != name) {
+      ++unparsed;
+      i = k;
+      continue;
+    }
+    ++k;
+    rp.tn = body(k);
+    rp.a = numbersOf(rp.ta);
+    rp.n = numbersOf(rp.tn);
+    if (rp.a.empty() || rp.a.size() != rp.n.size()) {
+      ++unparsed;
+      i = k;
+      continue;
+    }
+    groups.back().push_back(rp);
+    i = k;
+  }
+  return groups;
+}
+static std::string normVar(std::string v) {
+  const auto par = v.find('(');
+  if (par != std::string::npos) v = v.substr(0, par);
+  while (!v.empty() && (isdigit(static_cast<unsigned char>(v.back())) || v.back() == '_')) v.pop_back();
+  return v;
+}
+// An iteration in which a plastic flow changes status: the convergence checks switch the flow on or off AFTER the residual
+// and the jacobian were evaluated, and the comparison that follows differentiates the new system.  It is recognised by
+// the row of the flow equation: df p / dd p is the identity entry (1) in exactly one of the two jacobians.
+static bool statusChange(const std::vector<Report>& g) {
+  for (const auto& rp : g) {
+    const auto sep = rp.name.find("_dd");
+    if (sep == std::string::npos) continue;
+    if (normVar(rp.name.substr(2, sep - 2)) != "p" || normVar(rp.name.substr(sep + 3)) != "p") continue;
+    if (rp.name.substr(2, sep - 2) != rp.name.substr(sep + 3) || rp.a.size() != 1) continue;
+    const bool ia = rp.a[0] == 1., in = std::fabs(rp.n[0] - 1.) <= 1e-6;
+    if (ia != in) return true;
+  }
+  return false;
+}
+static void accumulate(const std::vector<std::vector<Report>>& groups, std::map<std::string, BlockStat>& stats, long long& flips) {
+  for (const auto& g : groups) {
+    if (statusChange(g)) {
+      ++flips;
+      continue;
+    }
+    for (const auto& rp : g) {
+      ld d = 0, sc = 1;
+      bool bad = false;
+      for (size_t q = 0; q < rp.a.size(); ++q) {
+        if (!std::isfinite(rp.a[q]) || !std::isfinite(rp.n[q])) bad = true;
+        d = std::max(d, std::fabs(static_cast<ld>(rp.a[q]) - rp.n[q]));
+        sc = std::max(sc, std::max(std::fabs(static_cast<ld>(rp.a[q])), std::fabs(static_cast<ld>(rp.n[q]))));
+      }
+      auto& st = stats[rp.name];
+      ++st.reports;
+      const ld m = bad ? 1e30L : d / sc;
+      if (m >= st.worst) {
+        st.worst = m;
+        st.scale = sc;
+        st.sampleA = rp.ta.substr(0, 300);
+        st.sampleN = rp.tn.substr(0, 300);
+      }
+    }
+  }
+}
+static void jacobianCase(void* lib, const Json& c, Json& r) {
+  Setup su = setup(lib, c);
+  const auto& h = su.b.h;
+  const double sden = static_cast<double>(c["sden"].asInt());
+  std::cout.precision(17);
+  // one run of the whole path per perturbation of the numerical jacobian; per block the best run counts
+  std::map<std::string, long long> best;
+  std::map<std::string, long long> nrep;
+  std::map<std::string, std::pair<std::string, std::string>> sample;
+  long long steps_ok = 0, steps = 0, unparsed = 0, flips = 0;
+  bool active = false;
+  Json perrun = Json::array();
+  for (const auto& pe : c["njeps"].a) {
+    if (!su.b.setpar("numerical_jacobian_epsilon", ratd(pe))) throw std::runtime_error("can't set numerical_jacobian_epsilon");
+    std::vector<double> eto = su.eto0, sig = su.sig0, isv = su.isv0;
+    std::map<std::string, BlockStat> stats;
+    long long ok = 0, tot = 0;
+    for (const auto& st : c["path"].a) {
+      std::vector<double> de = toTfel(st["de"], sden, h);
+      if (h.pstress) de[h.axial] = 0;
+      const double dt = ratd(st["dt"]);
+      const auto q = call(su.b, su.mp, eto, de, sig, isv, su.esv0, su.esv1, dt, 0., true);
+      ++tot;
+      accumulate(parseReports(q.out, unparsed), stats, flips);
+      if (q.ret < 0 || q.threw) break;  // the path stops at the first failure
+      ++ok;
+      for (int i = 0; i < h.ns; ++i) eto[i] += de[i];
+      const State sa = viewState(su, isv), sb = viewState(su, q.isv);
+      for (size_t i = 0; i < sa.p.size(); ++i) active = active || sb.p[i] > sa.p[i];
+      sig = q.sig;
+      isv = q.isv;
+    }
+    steps_ok = std::max(steps_ok, ok);
+    steps = tot;
+    Json pr = Json::object();
+    for (const auto& kv : stats) {
+      const long long cl = e10(kv.second.worst);
+      pr.set(kv.first, Json(cl));
+      if (!best.count(kv.first) || cl < best[kv.first]) {
+        best[kv.first] = cl;
+        sample[kv.first] = {kv.second.sampleA, kv.second.sampleN};
+      }
+      nrep[kv.first] = std::max(nrep[kv.first], kv.second.reports);
+    }
+    // a block never reported in a run agrees exactly in that run
+    for (auto& kv : best)
+      if (!stats.count(kv.first)) kv.second = -99;
+    perrun.push(pr);
+  }
+  Json blocks = Json::array();
+  for (const auto& kv : best) {
+    Json b = Json::object();
+    // df<X>_dd<Y>[(i[,j])] -> X, Y without indices and identifiers of repeated components (a_0 -> a, p1 -> p)
+    auto norm = normVar;
+    const auto sep = kv.first.find("_dd");
+    const std::string X = norm(kv.first.substr(2, sep - 2)), Y = norm(kv.first.substr(sep + 3));
+    b.set("blk", Json(kv.first)).set("eq", Json(X)).set("var", Json(Y)).set("cls", Json(kv.second)).set("reports", Json(nrep[kv.first]));
+    if (kv.second > -4) b.set("analytical", Json(sample[kv.first].first)).set("numerical", Json(sample[kv.first].second));
+    blocks.push(b);
+  }
+  r.set("blocks", blocks).set("per_run", perrun).set("steps", Json(steps)).set("steps_ok", Json(steps_ok)).set("active", Json(active)).set("unparsed", Json(unparsed)).set("status_changes", Json(flips));
+}
+
 int main(int argc, char** argv) {
   if (argc < 4) return 2;
   void* lib = dlopen(argv[1], RTLD_NOW);
@@ -782,6 +1120,8 @@ int main(int argc, char** argv) {
     const auto mode = c["mode"].asStr();
     try {
       if (mode == "integrate") integrateCase(lib, c, r);
+      else if (mode == "tangent") tangentCase(lib, c, r);
+      else if (mode == "jacobian") jacobianCase(lib, c, r);
       else throw std::runtime_error("unknown mode " + mode);
     } catch (std::exception& e) {
       std::cerr << "case " << c["id"].asInt() << ": " << e.what() << "\n";
